@@ -217,7 +217,12 @@ func (m *Machine) Exec(op Op) (Event, error) {
 		ev.Post = unread(b)
 	case "load":
 		// a buffer over a caller-owned slice holding exactly these bytes (bytes.NewBuffer)
+		// (K > 0: the buffer holds only the first K of them - the rest lies behind its end in the same
+		// backing array, as when a frame is handed on without its trailer)
 		raw := I2B(op.Bytes)
+		if op.K > 0 && op.K <= len(raw) {
+			raw = raw[:op.K]
+		}
 		m.Bufs[op.B] = bytes.NewBuffer(raw)
 		ev.Post = unread(m.Bufs[op.B])
 	case "cut":
@@ -268,6 +273,18 @@ func (m *Machine) Exec(op Op) (Event, error) {
 			return ev, fmt.Errorf("sharepointers: no object %s", op.O)
 		}
 		SharePointers(obj)
+		ev.T = m.Types[op.O]
+		ev.VPost = Dump(obj)
+		ev.V = ev.VPost
+	case "duppointers":
+		// the caller built a repeating group by appending ONE entry object several times (a fixture, a template
+		// message): every position of every repeating group holds the same pointer, at least four of them
+		obj, ok := m.Objs[op.O]
+		if !ok {
+			return ev, fmt.Errorf("duppointers: no object %s", op.O)
+		}
+		DupPointers(obj)
+		ev.Op = "sharepointers" // same meaning for the specification: the receiver's value is re-read from vpost
 		ev.T = m.Types[op.O]
 		ev.VPost = Dump(obj)
 		ev.V = ev.VPost
@@ -554,6 +571,38 @@ func OpOfEvent(e map[string]any) (Op, error) {
 		op.V = ev.V
 	}
 	return op, nil
+}
+
+// DupPointers makes every element of every repeating group the same pointer (at least four entries).
+func DupPointers(obj any) {
+	rv := reflect.ValueOf(obj)
+	if rv.Kind() != reflect.Ptr || rv.IsNil() {
+		return
+	}
+	rv = rv.Elem()
+	if rv.Kind() != reflect.Struct {
+		return
+	}
+	for i := 0; i < rv.NumField(); i++ {
+		f := rv.Field(i)
+		if f.Kind() == reflect.Slice && f.Type().Elem().Kind() == reflect.Ptr && f.CanSet() {
+			var e0 reflect.Value
+			if f.Len() > 0 && !f.Index(0).IsNil() {
+				e0 = f.Index(0)
+			} else {
+				e0 = reflect.New(f.Type().Elem().Elem())
+			}
+			n := f.Len()
+			if n < 4 {
+				n = 4
+			}
+			ns := reflect.MakeSlice(f.Type(), n, n)
+			for j := 0; j < n; j++ {
+				ns.Index(j).Set(e0)
+			}
+			f.Set(ns)
+		}
+	}
 }
 
 // SharePointers makes list element 1 the same pointer as element 0 in every repeating group, and
